@@ -983,6 +983,9 @@ func (fr *Frame) intrinsic(fn *ssa.Function, args []Val, st *State, pos token.Po
 		return TV(Sel(g, asPtr(args[1]), vs)), true
 	case "same":
 		return TV(Eq(args[0].T, args[1].T)), true
+	case "verifTriggerSink":
+		vc.lastTrigger = args[0].T
+		return Val{}, true
 	case "lastCallee":
 		return TV(Eq(App(SFunc, "tfun", args[0].T), args[1].T)), true
 	case "mapVal":
@@ -994,6 +997,8 @@ func (fr *Frame) intrinsic(fn *ssa.Function, args []Val, st *State, pos token.Po
 		return TV(mv), true
 	case "sameSlice":
 		return TV(Eq(args[0].T, args[1].T)), true
+	case "sameStart":
+		return TV(And(Eq(SArr(args[0].T), SArr(args[1].T)), Eq(SOff(args[0].T), SOff(args[1].T)))), true
 	case "sameArray":
 		return TV(Eq(SArr(args[0].T), SArr(args[1].T))), true
 	case "ptrIndex":
